@@ -63,8 +63,8 @@ type C04UCase struct {
 	Skip     bool  `json:"skip,omitempty"`
 	Delay    bool  `json:"delay,omitempty"`
 	Suppress bool  `json:"suppress,omitempty"`
-	NWatch int   `json:"n_watch"`
-	Ops    []UOp `json:"ops"`
+	NWatch   int   `json:"n_watch"`
+	Ops      []UOp `json:"ops"`
 	// EnableAt k>0: EnableVerification is called before op k-1 (only with Delay)
 	EnableAt int `json:"enable_at,omitempty"`
 }
